@@ -45,10 +45,37 @@ def run(ctx):
     check_native_init(ctx, prog)
     check_start(ctx, prog)
     check_deadline(ctx, prog)
+    ctx.floor('C13.named', check_named_threads(ctx, prog), 3)
     import retself
     n = retself.check(ctx, prog, 'R-RETSELF', ('asl::ThreadGroup', 'asl::Thread', 'asl::Array'))
     ctx.floor('R-RETSELF members', n, 2)
     return __doc__.split('\n\n', 1)[1]
+
+
+def check_named_threads(ctx, prog):
+    """C13.named: a function / lambda thread reports its completion through the Thread object it was constructed on (the hand-over
+    record carries its address; the worker stores the finished flag there as its last act).  That object therefore has to live
+    until the thread was joined: in the library's own launchers (parallel_invoke, parallel_for ...) every Thread built from a
+    function object is a declared variable or a heap object - never a temporary of an expression, which dies at the end of
+    the statement while the worker may still be running (a copy put into an array takes over the handle, not the address)."""
+    n = 0
+    seen = set()
+    for f in prog.functions:
+        if not f.get('body') or f.get('implicit') or not (f.get('file') or '').startswith(ir.REPO):
+            continue
+        key = (f.get('file'), f.get('line'))
+        made = [w for w in fn_exprs(f) if w.get('k') == 'construct' and w.get('cls') == 'asl::Thread' and w.get('a') and
+                not (w.get('sig') or '').startswith(('(const asl::Thread &', '(asl::Thread &&'))]
+        if not made or key in seen:
+            continue
+        seen.add(key)
+        n += 1
+        ctx.analysed(f)
+        temps = [w for w in fn_exprs(f) if w.get('k') == 'temp' and strip(w.get('e') or {}).get('k') == 'construct' and any(strip(w['e']) is m_ for m_ in made)]
+        role = '%s%s:threads built from a function object are named objects' % (f['n'], (f.get('sig') or '')[:40])
+        ctx.check(not temps, 'C13.named', f['pq'], role, fwhere(f, temps[0].get('l') if temps else None), '%d thread object(s), each a variable or a heap object' % len(made),
+                  '%s builds a thread as a temporary (`%s`): the worker keeps the address of that object and stores its finished flag there when the task ends, but the temporary is destroyed at the end of the statement - a task that outlives the statement writes into a dead stack slot, and the object that is joined later is a copy' % (f['pq'], pe(temps[0]) if temps else ''))
+    return n
 
 
 def is_flag_store(e, value=None):
